@@ -148,6 +148,7 @@ func init() {
 		notDecided:  []string{"independence of the order in which paths were added (geometric tie-breaking)", "conditionally assigned round-join step fields are argued by hand (stepSin/stepCos/stepsPerRad)", "callbacks and scale functions supplied by the caller"},
 		rules: []func(*Ctx){
 			ruleNoStaleGuard("C12.step", "ClipperOffset", []string{"stepSin", "stepCos", "stepsPerRad"}, 3, "the arc step depends on |delta|, the tolerance AND the sign of the group's delta; keeping it from the previous group or execution turns round joins the wrong way for an object used with deltas of both signs"),
+			ruleSolutionReplaced("C12.solution-replaced", []string{"(clipper64).Execute", "(clipper64).ExecuteOC", "(clipper64).ExecutePolyTree64", "(clipperD).Execute", "(clipperD).ExecuteOC", "(clipperD).ExecuteWithScaleFunc", "(clipperD).ExecutePolyTreeD"}),
 			ruleInvalidateFlag("C12.minima-flag", "clipperBase", "minimaList", "isSortedMinimaList", 2, "local minima are popped from the end of a list sorted by Y; a path added after an execution, through an entry that forgets the flag, is swept out of order: the second Execute differs from a fresh engine given the same paths"),
 			ruleScratchField("C12.scratch", "ClipperOffset", "pathOut", 4, "a scratch slice written again after it was handed to the solution carries one path's points into the next"),
 			ruleScratchLocal("C12.scratch.local", []string{"(clipperBase).buildTree", "(clipperBase).buildPaths"}, 2, "each result path is handed to the caller by reference; filling the same variable again overwrites the pieces already handed over"),
@@ -238,7 +239,7 @@ func init() {
 			}),
 			rulePanics("C03.panics"), ruleMakeSizes("C03.make"), ruleConstIndex("C03.index", map[string]string{
 				"TrimCollinear64:param#0": "path[0] == path[1] is evaluated only after `l < 2` was false, and l never exceeds len(path) (it starts there and is only decremented), so len(path) >= 2",
-			}), ruleDivisors("C03.div"), ruleSucceeded("C03.flag"), ruleMonotoneFlag("C03.open-flag", "clipperBase", "hasOpenPaths"), ruleRing("C03.ring", 25, whyRing),
+			}), ruleDivisors("C03.div"), ruleSucceeded("C03.flag"), ruleZeroLengthHorz("C03.horz.zero"), ruleMonotoneFlag("C03.open-flag", "clipperBase", "hasOpenPaths"), ruleRing("C03.ring", 25, whyRing),
 		},
 	})
 	register(&propDef{
